@@ -48,6 +48,8 @@ def prec_program(typ, prompt, rev, wrev, dep, defaults, rng_kind):
         add(s_, [NOVAL, L["src"][1]])
     if typ == "bool" and defaults == 2:
         add(gate("SRC", "n"), [NOVAL, "y"])
+    if defaults == 4:  # a default taken from an option that has no value itself
+        add(mk_config("EMP", typ, prompt=None), None)
     cond = lambda k: Y if k == 1 else S("G2")  # noqa: E731
     if rev:
         u1 = gate("U1", "n")
@@ -69,13 +71,18 @@ def prec_program(typ, prompt, rev, wrev, dep, defaults, rng_kind):
             t["defaults"] = [{"v": Y, "c": S("G2")}, {"v": N, "c": Y}]
         elif defaults == 2:
             t["defaults"] = [{"v": S("SRC"), "c": Y}]
+        elif defaults == 4:
+            t["defaults"] = [{"v": S("EMP"), "c": Y}]
         users = [NOVAL, "n", "y"]
     else:
         if defaults == 1:
             t["defaults"].append({"v": C(L["cond"]), "c": S("G2")})
         elif defaults == 2:
             t["defaults"].append({"v": S("SRC"), "c": Y})
-        t["defaults"].append({"v": C(L["fallback"]), "c": Y})
+        if defaults == 4:
+            t["defaults"].append({"v": S("EMP"), "c": Y})
+        elif defaults != 3:  # 3: nothing provides a value
+            t["defaults"].append({"v": C(L["fallback"]), "c": Y})
         if typ != "string" and rng_kind:  # int / hex / float
             if rng_kind == 1:
                 t["ranges"].append({"lo": C(L["lo"]), "hi": C(L["hi"]), "c": Y})
@@ -95,7 +102,7 @@ def prec_lattice(tier):
     out = []
     for typ in ("bool", "int", "hex", "string", "float"):
         rngs = (0, 1, 2, 3) if typ in ("int", "hex", "float") else (0,)
-        for prompt, rev, wrev, dep, defaults, rk in itertools.product((0, 1, 2), (0, 1, 2), (0, 1, 2), (0, 1), (0, 1, 2), rngs):
+        for prompt, rev, wrev, dep, defaults, rk in itertools.product((0, 1, 2), (0, 1, 2), (0, 1, 2), (0, 1), (0, 1, 2, 3, 4), rngs):
             out.append(prec_program(typ, prompt, rev, wrev, dep, defaults, rk))
     out += nest_lattice()
     out += choice_lattice()
@@ -103,7 +110,7 @@ def prec_lattice(tier):
     out += edge_lattice()
     if tier == "quick":
         # fixed, seed-independent slice
-        keep = [p for k, p in enumerate(out) if p["family"] != "F-prec" or k % 9 == 0]
+        keep = [p for k, p in enumerate(out) if p["family"] != "F-prec" or k % 11 == 0]  # stride coprime with every factor
         return keep
     return out
 
@@ -219,7 +226,7 @@ WIDE_USERS = {
 def numeric_lattice(tier):
     out = []
     for typ in ("int", "hex", "float"):
-        for prompt, rev, wrev, defaults, rk in itertools.product((1, 2), (0, 1), (0, 1), (0, 1, 2), (0, 1, 2, 3)):
+        for prompt, rev, wrev, defaults, rk in itertools.product((1, 2), (0, 1), (0, 1), (0, 1, 2, 3, 4), (0, 1, 2, 3)):
             it = prec_program(typ, prompt, rev, wrev, 0, defaults, rk)
             for v in it["vars"]:
                 if v["n"] == "T":
@@ -229,7 +236,7 @@ def numeric_lattice(tier):
             it["family"] = "F-num"
             out.append(it)
     if tier == "quick":
-        return [p for k, p in enumerate(out) if k % 4 == 0]
+        return [p for k, p in enumerate(out) if k % 5 == 0]  # stride coprime with every factor of the lattice
     return out
 
 
